@@ -163,10 +163,17 @@ namespace {
       {
          // as the library's own client does (Overload::push_back after a failed lookup), but also offering
          // duplicates: the chain must then leave its shape alone
+         // a key already in the tree is offered alternately by a fresh node object and by the very node that is linked there
+         auto it = linked.find(k);
+         if (it != linked.end() and (++dups % 2 == 1)) return c.insert(it->second, LinkCmp{})->key;
          store.emplace_back();
          store.back().key = k;
-         return c.insert(&store.back(), LinkCmp{})->key;
+         auto got = c.insert(&store.back(), LinkCmp{});
+         if (it == linked.end()) linked[k] = got;
+         return got->key;
       }
+      std::map<int, Link*> linked;
+      long dups = 0;
       bool find(int k) override { return c.find(k, LinkCmp{}) != nullptr; }
       long size() override { return c.size(); }
       Value shape() override { return sh.dump(c.r(), +[](const Link& n) { return n.key; }); }
